@@ -17,10 +17,10 @@
    events) is computed next to it from the same pre-state.  Executable model and executable
    checkers only - no proofs in this file.
 
-   Not modelled: asynchronous (SDT) events (ASYNC_IDX), the bytes of argument/return-value capture in the
-   same frame (the overlap guard is modelled at buffer level, [guard_*] at the end of this file; with the
-   small argument areas the tie generates every event fits), threads sharing the global watch item,
-   shmem buffer exhaustion.                                        *)
+   Argument capture in the same frame: the SIZE of the argument data is an input of the entry hook
+   ([o_asz]); save_trigger_read stores an event only where it stays above these bytes ([fits]).
+   Not modelled: asynchronous (SDT) events (ASYNC_IDX), the argument/return-value bytes themselves (C09),
+   threads sharing the global watch item, shmem buffer exhaustion.                                        *)
 From Coq Require Import NArith ZArith List Bool.
 Import ListNotations.
 Require Import UV.Gen.Consts UV.Gen.C17Consts UV.Mcount.Model UV.Mcount.Forest UV.Mcount.Check.
@@ -66,7 +66,9 @@ Definition kinds_of (mask : N) : list kind :=
 (* readings of the value sources at one hook: statm (vmsize, vmrss, shared - already in KB),
    page faults (major, minor), the three perf groups (two counters each), cpu number, watched variable *)
 Record oval := { o_statm : list N; o_pf : list N; o_cycle : list N; o_cache : list N; o_branch : list N;
-                o_cpu : Z; o_var : N }.
+                o_cpu : Z; o_var : N;
+                o_asz : option N }.   (* entry hooks: size of the argument data save_argument stores for this call
+                                         (Some = MCOUNT_FL_ARGUMENT set; the data follows a 4-byte size word) *)
 
 (* ---------------------------------------------------------------- configuration *)
 Record xcfg := {
@@ -97,8 +99,10 @@ Definition erase (l : list item) : list rec :=
   flat_map (fun i => match i with IR r => [r] | IE _ => [] end) l.
 
 (* per-frame extension: MCOUNT_FL_READ and the event area (oldest first = highest address first) *)
-Record fx := { x_read : bool; x_evs : list fev }.
-Definition fx0 : fx := {| x_read := false; x_evs := [] |}.
+Record fx := { x_read : bool; x_evs : list fev;
+               x_asz : option N }.            (* MCOUNT_FL_ARGUMENT and the size word at the start of the frame buffer *)
+Definition fxa (a : option N) : fx := {| x_read := false; x_evs := []; x_asz := a |}.
+Definition fx0 : fx := fxa None.
 
 Record xpart := {
   xs : list fx;                   (* parallel to [stack] of the base state, top first *)
@@ -158,9 +162,41 @@ Fixpoint str_go (C : xcfg) (ks : list kind) (o : oval) (ts : N) (diff : bool) (e
 (* rstack->end_time ?: rstack->start_time *)
 Definition ts_of (f : frame) : N := if f_end f =? 0 then f_start f else f_end f.
 
+(* ---- the frame buffer shared with the argument data: events grow down from ARGBUF_SIZE; before an event
+   is stored (and before its source is read) the guard checks that it stays above the argument bytes:
+       arg_data = argbuf;  if (flags & MCOUNT_FL_ARGUMENT) arg_data += 4 + <size word at argbuf>;
+       event = ptr - evsize;  if (event < arg_data) continue;                                          *)
+Definition dsz (k : kind) : N :=
+  match k with
+  | K_STATM => SIZEOF_PROC_STATM | K_PF => SIZEOF_PAGE_FAULT | K_CYCLE => SIZEOF_PMU_CYCLE
+  | K_CACHE => SIZEOF_PMU_CACHE | K_BRANCH => SIZEOF_PMU_BRANCH
+  end.
+Definition esize (e : fev) : N :=
+  EVTBUF_HDR + (if (e_id e =? EVENT_ID_READ_PROC_STATM) || (e_id e =? EVENT_ID_DIFF_PROC_STATM)
+                then SIZEOF_PROC_STATM else SIZEOF_PAGE_FAULT).
+Definition used (evs : list fev) : N := fold_right (fun e n => esize e + n) 0 evs.
+Definition fits (asz : option N) (evs : list fev) (k : kind) : bool :=
+  let evsize := EVTBUF_HDR + dsz k in
+  let event_idx := C17_ARGBUF_SIZE - used evs in
+  let arg_data := match asz with Some a => 4 + a | None => 0 end in
+  (evsize <=? event_idx) && (arg_data <=? event_idx - evsize).
+
+Fixpoint str_go_g (C : xcfg) (asz : option N) (ks : list kind) (o : oval) (ts : N) (diff : bool) (evs : list fev)
+  : list fev :=
+  match ks with
+  | [] => evs
+  | k :: r => if fits asz evs k then
+                match new_event C o ts diff evs k with
+                | None => str_go_g C asz r o ts diff evs
+                | Some e => str_go_g C asz r o ts diff (evs ++ [e])
+                end
+              else str_go_g C asz r o ts diff evs
+  end.
+
 Definition save_trigger_read (C : xcfg) (f : frame) (o : oval) (diff : bool) (x : fx) : fx :=
   {| x_read := true;
-     x_evs := str_go C (kinds_of (read_of C (f_addr f))) o (ts_of f) diff (x_evs x) |}.
+     x_evs := str_go_g C (x_asz x) (kinds_of (read_of C (f_addr f))) o (ts_of f) diff (x_evs x);
+     x_asz := x_asz x |}.
 
 (* ---------------------------------------------------------------- save_watchpoint *)
 Definition cpu_word (c : Z) : N := Z.to_N (c mod 4294967296).
@@ -277,7 +313,9 @@ Definition x_enter (C : xcfg) (s : st) (X : xpart) (a t : N) (o : oval) : xpart 
               push (emit X1 its p') fx0
             else push X1 fx0
           else
-            let x := if read_of C a =? 0 then fx0 else save_trigger_read C top o false fx0 in
+            (* save_argument ran before (not under cygprof: it clears TRIGGER_FL_ARGUMENT) *)
+            let x0 := fxa (match shp c with PG => o_asz o | CYG => None end) in
+            let x := if read_of C a =? 0 then x0 else save_trigger_read C top o false x0 in
             push (x_watch C top (idx s1) o X1) x
       end
   | PG, _ => X1
@@ -589,7 +627,7 @@ Fixpoint balanced (d : list bool) (open : nat) : bool :=
   end.
 Definition ocpu (b : bool) : oval :=
   {| o_statm := [0; 0; 0]; o_pf := [0; 0]; o_cycle := [0; 0]; o_cache := [0; 0]; o_branch := [0; 0];
-     o_cpu := if b then 1%Z else 0%Z; o_var := 0 |}.
+     o_cpu := if b then 1%Z else 0%Z; o_var := 0; o_asz := None |}.
 Fixpoint hooks_of (d c : list bool) (t gap i : N) : list xev :=
   match d, c with
   | e :: dr, b :: cr =>
